@@ -197,6 +197,52 @@ func C16(t Tier) int {
 			})
 		}
 	}
+	// ... and what the PNFT module holds after ANY accepted message stays inside the limits: every reference-accepted PNFT message
+	// (<= 2 non-default classes) is delivered to the populated chain; after an accepted one every stored denom must still have a
+	// well-formed id, a name, a symbol and an owner address, every token of it a well-formed id and a name
+	storedWithin := 0
+	{
+		wp := populated(e)
+		for _, d := range doms {
+			if !strings.HasPrefix(d.Name, "pnft.") {
+				continue
+			}
+			d.product(2, func(m0 sdk.Msg, labels []string, odd int) {
+				m, ok := roundTrip(d, m0)
+				if !ok || !d.Ref(m) {
+					return
+				}
+				discard := wp.Fork()
+				defer discard()
+				if res := wp.Send(world.TxSpec{Msgs: []sdk.Msg{m}, Signers: d.Signers(e), Fee: aolFee}); res.Code != 0 {
+					return
+				}
+				storedWithin++
+				denoms, err := wp.App.PnftKeeper.GetAllDenoms(wp.Ctx())
+				if err != nil {
+					mm = append(mm, mismatch{d.Name, "stored-unreadable", labels, odd, "after an accepted message the denoms cannot be read: " + err.Error()})
+					return
+				}
+				for _, dn := range denoms {
+					if !refID(dn.Id) || dn.Name == "" || dn.Symbol == "" || !refAddr(dn.Owner) {
+						mm = append(mm, mismatch{d.Name, "stored-out-of-limits", labels, odd, fmt.Sprintf("an accepted message left denom %q outside the published limits (name %q, symbol %q, owner %q)", dn.Id, dn.Name, dn.Symbol, dn.Owner)})
+						return
+					}
+					toks, err := wp.App.PnftKeeper.GetPNFTsByDenomId(wp.Ctx(), dn.Id)
+					if err != nil {
+						mm = append(mm, mismatch{d.Name, "stored-unreadable", labels, odd, "after an accepted message the tokens of " + dn.Id + " cannot be read: " + err.Error()})
+						return
+					}
+					for _, tk := range toks {
+						if !refID(tk.Id) || tk.Name == "" || !refAddr(tk.Owner) || !refAddr(tk.Creator) {
+							mm = append(mm, mismatch{d.Name, "stored-out-of-limits", labels, odd, fmt.Sprintf("an accepted message left token %q/%q outside the published limits", dn.Id, tk.Id)})
+							return
+						}
+					}
+				}
+			})
+		}
+	}
 	// charset, byte by byte: every single byte value as a one-character name and as the second character after "a", for the
 	// topic name (three message types) and the moniker: accepted <=> the byte is in the published character set
 	charsetEvals := 0
@@ -246,6 +292,7 @@ func C16(t Tier) int {
 	run.Coverage["exhaustive"] = true
 	run.Coverage["accepted_by_validate_basic"] = accepted
 	run.Coverage["delivered_rejected_messages"] = delivered
+	run.Coverage["accepted_pnft_messages_checked_in_store"] = storedWithin
 	run.Coverage["undecodable_skipped"] = undecodable
 	run.Coverage["accepted_updates_compared_with_store"] = storedVerbatim
 	run.Coverage["per_type_inputs"] = perDom
